@@ -107,6 +107,7 @@ type Options struct {
 	Log              io.Writer
 	Verbose          bool
 	NoBackend        bool
+	BackendHandler   http.Handler // replaces the recording backend's handler
 }
 
 type Stack struct {
@@ -166,7 +167,11 @@ func DefaultInjectors(maxPrio uint) []reverseproxy.HeaderInjector {
 func Start(o Options) (*Stack, error) {
 	s := &Stack{Backend: &Backend{Respond: o.Respond}, ServeErr: make(chan error, 1), LogBuf: &SyncBuffer{}}
 	if !o.NoBackend {
-		s.Backend.Srv = httptest.NewServer(http.HandlerFunc(s.Backend.handler))
+		if o.BackendHandler != nil {
+			s.Backend.Srv = httptest.NewServer(o.BackendHandler)
+		} else {
+			s.Backend.Srv = httptest.NewServer(http.HandlerFunc(s.Backend.handler))
+		}
 	}
 	to, _ := url.Parse("http://127.0.0.1:1")
 	if s.Backend.Srv != nil {
